@@ -3,6 +3,7 @@ package run
 import (
 	"errors"
 	"fmt"
+	"runtime/metrics"
 	"time"
 
 	"github.com/xujiajun/nutsdb"
@@ -141,8 +142,35 @@ func OpenDB(opt nutsdb.Options) (db *nutsdb.DB, err error, pan string) {
 			pan = PanicInfo(r)
 		}
 	}()
+	before := heapAllocated()
 	db, err = nutsdb.Open(opt)
+	if d := heapAllocated() - before; d > SimulatedRAM {
+		// a failing allocation, the only way this sandbox can model it: the
+		// simulated machine has 1 GiB; an Open that asks for more dies there
+		if db != nil {
+			Safe(func() { db.Close() })
+			db = nil
+		}
+		err = nil
+		pan = fmt.Sprintf("simulated out-of-memory: Open allocated %d MiB on a machine with %d MiB (a length field read from disk was trusted before its checksum?) @ github.com/xujiajun/nutsdb.Open", d>>20, SimulatedRAM>>20)
+	}
 	return
+}
+
+// SimulatedRAM is the memory of the simulated machine: no single Open of the
+// small directories used here may allocate more.
+const SimulatedRAM = 1 << 30
+
+var allocSample = []metrics.Sample{{Name: "/gc/heap/allocs:bytes"}}
+
+// heapAllocated returns the cumulative bytes allocated on the heap (cheap: no
+// stop-the-world).
+func heapAllocated() uint64 {
+	metrics.Read(allocSample)
+	if allocSample[0].Value.Kind() != metrics.KindUint64 {
+		return 0
+	}
+	return allocSample[0].Value.Uint64()
 }
 
 func (r *Runner) open(stepID int) bool {
@@ -229,9 +257,11 @@ func (r *Runner) syncFaultInStep(id int) bool {
 	return false
 }
 
-func hasBig(ops []prog.Op) bool {
+// hasBig tells whether a transaction carries an entry that cannot fit into a
+// segment (its commit must fail); long values that do fit do not count.
+func (r *Runner) hasBig(ops []prog.Op) bool {
 	for _, o := range ops {
-		if o.Big > 0 {
+		if o.Big > 0 && int64(o.Big)+42 > r.P.Cfg.SegSize {
 			return true
 		}
 	}
@@ -400,7 +430,7 @@ func (r *Runner) txStep(st *prog.Step, tr *StepTrace) {
 	}
 	if err != nil {
 		tr.Err = err.Error()
-		if err != errFn && st.End == "" && writable && !hasBig(st.Ops) && !r.faultInStep(st.ID) && !r.Opt.NoModel {
+		if err != errFn && st.End == "" && writable && !r.hasBig(st.Ops) && !r.faultInStep(st.ID) && !r.Opt.NoModel {
 			r.viol("commit-error", st.ID, -1, "Commit", "Update returned an unexpected error: %v", err)
 		}
 		if err != errFn && !writable && st.End == "" {
